@@ -47,7 +47,7 @@ def concrete(letter):
 class Spec:
     def __init__(self, name, exe="exe0", N=2, retries=0, warmup=0, ign=False, exe_build=None, suite_build=None,
                  suite=None, suite_loc="/x", adapter_ok=True, script=(), mode="k", exclusive=None, exe_path="/x",
-                 exe_file=None, exe_env=None, suite_env=None, bench_env=None):
+                 exe_file=None, exe_env=None, suite_env=None, bench_env=None, adapter=None):
         self.name, self.exe, self.N, self.retries, self.warmup, self.ign = name, exe, N, retries, warmup, ign
         self.exe_build, self.suite_build = exe_build, suite_build
         self.suite = suite or "S_" + name
@@ -58,6 +58,7 @@ class Spec:
         self.exclusive = exclusive
         self.exe_path, self.exe_file = exe_path, exe_file or exe   # executors are told apart by path + file name
         self.exe_env, self.suite_env, self.bench_env = exe_env, suite_env, bench_env
+        self.adapter = adapter      # an explicit gauge_adapter setting (name, or {Name: file})
 
     def run_env(self):
         """the run's env: the most specific level that defines one replaces the others"""
@@ -86,7 +87,7 @@ def raw_config(specs):
             e["build"] = [s.exe_build]
         if s.exe_env is not None:
             e["env"] = s.exe_env
-        su = suites.setdefault(s.suite, {"gauge_adapter": "RebenchLog" if s.adapter_ok else "NoSuchAdapter",
+        su = suites.setdefault(s.suite, {"gauge_adapter": s.adapter if s.adapter is not None else ("RebenchLog" if s.adapter_ok else "NoSuchAdapter"),
                                          "command": "%(benchmark)s %(invocation)s", "benchmarks": [], "location": s.suite_loc})
         if s.suite_build:
             su["build"] = [s.suite_build]
@@ -113,7 +114,7 @@ class Obs:
 
 
 def run_impl(specs, data_file, scheduler="batch", argv=(), failing_builds=(), seed=None, interrupt_at=None,
-             build_oserror=(), run_filter=None):
+             build_oserror=(), run_filter=None, config_dir=None):
     """one real session; returns what was observed"""
     by_name = {s.name: s for s in specs}
     obs = Obs()
@@ -185,7 +186,7 @@ def run_impl(specs, data_file, scheduler="batch", argv=(), failing_builds=(), se
     session._pre_call = pre_call
     try:
         ses = session.run_session(raw_config(specs), script, data_file, argv=list(argv), scheduler=scheduler,
-                                  build_script=build_script, seed=seed, on_runs=on_runs, run_filter=run_filter)
+                                  build_script=build_script, seed=seed, on_runs=on_runs, run_filter=run_filter, config_dir=config_dir)
     finally:
         RunId.add_data_point, rexec.Executor.execute_run, RunId.report_run_failed = o_add, o_exec, o_failed
         rexec.random.choice = o_choice
